@@ -78,6 +78,8 @@ def run_case(acc, env, body, mt, mode, n0, carried, case_id, rnd_desc):
     elif mode == "stale34":               # a new message that still carries a MsgSeqNum tag
         body = [("34", str(carried))] + body
     mtv = mt.value if isinstance(mt, FMsg) else mt
+    if (n0 + carried + len(body)) % 2:
+        mt = mtv          # FIXMessage documents msg_type: str | FMsg; the plain string must behave like the enum member
     nontriv = msggen.has_group(body) or mode != "normal" or any(any(x in v for x in ("=", "FIX", "\x01")) for v in msggen.all_values(body))
     acc.case((mtv, body, mode, n0, carried), nontrivial=nontriv)
     witness = {"mt": mtv, "body": body, "mode": mode, "n0": n0, "carried": carried}
@@ -95,7 +97,9 @@ def run_case(acc, env, body, mt, mode, n0, carried, case_id, rnd_desc):
     witness["wire"] = fixwire.show(wire)
     marker = b"8=FIX." in wire[1:]
     def viol(key, what):
-        if marker:
+        # (until repo fix 78e4c92 every failure of a message whose wire form contained '8=FIX.' inside a value was one known mechanism;
+        #  it is repaired, so failures keep their own keys; the old key is used only for the old symptom: nothing decoded at all)
+        if marker and key in ("roundtrip:none-returned",):
             acc.violation("value-contains-beginstring-marker", f"[{key}] {what}", witness, case_id)
         else:
             acc.violation(key, what, witness, case_id)
